@@ -93,9 +93,10 @@ def run_unit_cached(unit, seed, scratch):
 
 # bounded fallback (see main): Verus unit template -> differential suite of /verif/replay, and what a suite can witness
 UNIT_SUITE = {"utils": "utils", "qvector": "qvector", "qwt": "qwt", "bitvector": "bitvector", "wt": "wt", "rsq": "rsq",
-              "rswide": "rsbin", "rsnarrow": "rsbin", "darray": "darray"}
-SUITE_PROPS = {"utils": ["C17"], "qvector": ["C13"], "qwt": ["C01", "C09"], "bitvector": ["C08"], "wt": ["C03"], "rsq": ["C05"],
-               "rsbin": ["C06"], "darray": ["C07"]}
+              "rswide": "rsbin", "rsnarrow": "rsbin", "darray": "darray", "prefetch": "qwt"}
+SUITE_PROPS = {"utils": ["C17"], "qvector": ["C13", "C10", "C12", "C04"], "qwt": ["C01", "C09", "C10", "C12", "C04"],
+               "bitvector": ["C08", "C10", "C12", "C04"], "wt": ["C03", "C10", "C12", "C04"], "rsq": ["C05", "C10", "C04"],
+               "rsbin": ["C06", "C10", "C04"], "darray": ["C07", "C10", "C04"]}
 SUITE_FILE = {"utils": "src/utils/mod.rs", "qvector": "src/qvector/mod.rs", "qwt": "src/quadwt/mod.rs", "bitvector": "src/bitvector/mod.rs",
               "wt": "src/binwt/mod.rs", "rsq": "src/qvector/rs_qvector.rs", "rsbin": "src/bitvector/rs_wide.rs", "darray": "src/darray/mod.rs"}
 
